@@ -15,6 +15,11 @@ type M (`unmodelled`), so these steps are ORACLE-ONLY: both nodes leave the tie 
 40% of the cases use nodes whose REGISTER limit (1-3) is below the
 qubit capacity, so that qalloc (and, rarely, pair creation) is refused by the register limit at any point of an
 application; an address the node refused is allocated again later (`retry` steps).
+40% of the random cases draw the EPR socket ids of the two nodes afresh (0-2 each) in every generation, so a local
+socket id is opened again towards another remote id.  `socket_history` cases (2 nodes, every 4th on 3 nodes) are
+directed at that: 2-4 generations, each opening 1-2 links; a link mostly re-uses a LOCAL socket id of an earlier
+generation towards another remote socket id / another remote node (identical re-open as control), pairs are created
+and kept over every link in one or both directions, received, measured, freed, both applications stop.
 
 Oracle (independent of the Lean model), per node:
   * across one generation (before the node's InitNewApp .. after its StopApp): the factory's qubitList has the
@@ -32,7 +37,13 @@ Oracle (independent of the Lean model), per node:
     physical address a successful entanglement request reserved is mapped by the unit module or free again
     (`md-physical-address-not-released`); a record waiting in the receive queue is not a qubit;
   * the creator's StopApp changes nothing at the peer (held qubits, receive queue), and a half delivered before
-    it is still received and measured afterwards.
+    it is still received and measured afterwards;
+  * our own account of the receive queues per (node, local socket id) -- a half goes to the peer and the peer's socket
+    named by the creator's LAST OpenEPRSocket for the local id, a receive request takes from its own socket -- equals
+    the node's queues after every create / receive subroutine (`half-in-wrong-queue`); a half that waits in a queue
+    it was not sent for is not excused as "delivered, not yet received" in the StopApp clause above; a receive request
+    on a socket for which a half was sent does not time out empty-handed (`matched-recv-times-out`); OpenEPRSocket is
+    answered with MsgDone.
 A leak is classed by how it arose: `epr-failure-leaks-temporaries` (F13: a create_epr / recv_epr subroutine that
 was answered with an error after it had created or claimed qubits) or `stop-leaves-qubits` (anything else).
 
@@ -104,6 +115,20 @@ def epr_create_md_text(npairs, remote, rbl=0, rbr=0, probs=(0, 0, 0, 0), sock=0,
             extra += ["set R0 %d" % val, "set R1 %d" % idx, "store R0 @%d[R1]" % (base + 2)]
     assert lines[-1].startswith("create_epr") and lines[-6] == "set R0 %d" % remote
     return "\n".join(lines[:-6] + extra + lines[-6:])
+
+
+WRONG_QUEUE_KEY = "half-in-wrong-queue"
+RECV_TIMEOUT_KEY = "matched-recv-times-out"
+
+
+def k_queues(runner, node):
+    """{local EPR socket id: number of pair HALVES waiting in that receive queue of the node} (empty queues left out)"""
+    out = {}
+    for s_ in runner.nq.nodes[node].qubit_recv_epr:
+        k = inbox_entries(runner, node, s_).count("K")
+        if k:
+            out[s_] = k
+    return out
 
 
 def inbox_entries(runner, node, sock=0):
@@ -232,10 +257,31 @@ def run_case(case, gen_rng=None, res=None):
     subroutine has (at least nqcase.INSN_FLOOR) or nqcase.WALL_LIMIT seconds; that is the violation
     `nonterminating-subroutine` and ends the case."""
     cap = case["cap"]
+    NAMES = case.get("names") or globals()["NAMES"]      # (3-node socket histories name their nodes; default Alice, Bob)
     runner = nqcase.Runner(NAMES, cap, random.Random(case["seed"]), max_regs=case.get("regs"),
                            insn_limit=lambda prog: nqcase.insn_limit_for(len(prog) if prog is not None else 0))
     mine = {n: None for n in NAMES}       # addresses the node's application holds, as WE know (None: unknown)
     used0 = {n: set() for n in NAMES}     # physical addresses already marked used when the application started
+    # our own account of the EPR sockets (it outlives the applications, like the node's socket table): what the LAST
+    # OpenEPRSocket of a node said about a local socket id, and how many pair halves wait for whom on which socket
+    table = {n: {} for n in NAMES}        # node -> local socket id -> (peer name, peer's socket id)
+    expect = {n: {} for n in NAMES}       # node -> local socket id -> halves delivered for it and not yet received
+    epr_failed = {n: False for n in NAMES}    # an entanglement subroutine of the node has failed earlier in this case
+    got_half = {n: False for n in NAMES}      # the node's last receive request succeeded and took a pair half
+
+    def legit(n):
+        """halves waiting at n in the queue they were sent for (by our own account): held by the node, by no application"""
+        act = k_queues(runner, n)
+        return sum(min(k, expect[n].get(s_, 0)) for s_, k in act.items())
+
+    def queues_as_expected(where, after):
+        for n in NAMES:
+            act, want = k_queues(runner, n), {s_: k for s_, k in expect[n].items() if k}
+            if act != want:
+                add(WRONG_QUEUE_KEY, "%s: pair halves waiting at %s per local EPR socket id: %s; by the OpenEPRSocket messages "
+                    "and the create / receive requests so far they should be %s (socket tables as last opened: %s)"
+                    % (after, n, act, want, {m: {s_: "%s:%d" % t for s_, t in table[m].items()} for m in NAMES}), where)
+                expect[n] = dict(act)        # reported once
     node_id = runner.node_id
     viol = []
     gens_out = []
@@ -261,6 +307,7 @@ def run_case(case, gen_rng=None, res=None):
     for gi in range(ngens):
         steps = [] if gen_rng is not None else list(case["gens"][gi])
         base = {n: counts(runner, n) for n in NAMES}
+        base_legit = {n: legit(n) for n in NAMES}
         f13 = {n: False for n in NAMES}
         active = {n: None for n in NAMES}
         stopped = {n: False for n in NAMES}
@@ -269,43 +316,63 @@ def run_case(case, gen_rng=None, res=None):
         def do(step):
             """execute one step, judge what can be judged locally; returns the record"""
             node, kind = step[0], step[1]
-            peer = other(node)
+            # steps of socket histories name the local socket id (and, on 3 nodes, the peer):
+            #   [node, "open", sock, peer's sock(, peer)]   [node, "sub", "create"|"recv", body, sock(, peer)]
+            named = step[4] if kind == "open" and len(step) > 4 else step[5] if kind == "sub" and len(step) > 5 else None
+            peer = named or [m for m in NAMES if m != node][0]
+            others = [m for m in NAMES if m != node]
             where = (gi, len(steps) if gen_rng is not None else si)
             if kind == "init":
                 active[node] = step[2]
                 mine[node] = set()
+                got_half[node] = False
                 rec = send(where, node, "init", app=step[2], maxq=step[3])
                 used0[node] = set(runner.executor(node)._used_physical_qubit_addresses)
                 if [x[0] for x in rec["replies"]] != ["MsgDoneMessage"]:
                     add("init-reply", "InitNewApp(app %d) on %s answered %s" % (step[2], node, [x[0] for x in rec["replies"]]), where)
                 return rec
             if kind == "open":
-                return send(where, node, "open", app=active[node], sock=0, remote=node_id[peer])
+                sock, rsock = (step[2], step[3]) if len(step) > 3 else (0, 0)
+                table[node][sock] = (peer, rsock)
+                rec = send(where, node, "open", app=active[node], sock=sock, remote=node_id[peer], remote_sock=rsock)
+                if [x[0] for x in rec["replies"]] != ["MsgDoneMessage"]:
+                    add("open-reply", "OpenEPRSocket(%d -> %s:%d) on %s answered %s" % (sock, peer, rsock, node, [x[0] for x in rec["replies"]]), where)
+                return rec
             if kind == "stop":
-                before_peer = counts(runner, peer)
+                before_peer = {m: counts(runner, m) for m in others}
                 rec = send(where, node, "stop", app=active[node])
                 stopped[node] = True
                 mine[node] = None
                 if g is not None:
                     g.retry[node] = []
-                after_peer = counts(runner, peer)
+                after_peer = {m: counts(runner, m) for m in others}
                 if [x[0] for x in rec["replies"]] != ["MsgDoneMessage"]:
                     add("stop-reply", "StopApp on %s answered %s (%s)" % (node, [x[0] for x in rec["replies"]],
                                                                        [e[:80] for e in rec["errors"]][:1]), where)
-                if (before_peer["virt"], before_peer["inbox"]) != (after_peer["virt"], after_peer["inbox"]):
-                    add("stop-touches-peer", "StopApp on %s changed %s from %s to %s" % (node, peer, before_peer, after_peer), where)
+                for m in others:
+                    if (before_peer[m]["virt"], before_peer[m]["inbox"]) != (after_peer[m]["virt"], after_peer[m]["inbox"]):
+                        add("stop-touches-peer", "StopApp on %s changed %s from %s to %s" % (node, m, before_peer[m], after_peer[m]), where)
                 now = counts(runner, node)
                 b = base[node]
-                if now["qubitList"] != b["qubitList"] or now["virt"] - now["inbox"] != b["virt"] - b["inbox"]:
+                # a half that waits in a queue it was not sent for can be received by nobody who asks for it: it is not
+                # excused as "delivered, not yet received" (`legit`: our own account of the queues, per socket)
+                lg = legit(node)
+                if (now["qubitList"] != b["qubitList"] or now["virt"] - now["inbox"] != b["virt"] - b["inbox"]
+                        or now["virt"] - lg != b["virt"] - base_legit[node]):
                     key = F13_KEY if f13[node] else "stop-leaves-qubits"
-                    add(key, "%s after StopApp: %s, before the application: %s" % (node, now, b), where)
+                    add(key, "%s after StopApp: %s, before the application: %s%s" % (
+                        node, now, b, "" if lg == now["inbox"] else "; of the %d halves in its receive queues only %d wait on the "
+                        "socket they were sent for (queues %s, sent for %s)" % (now["inbox"], lg, k_queues(runner, node),
+                                                                               {s_: k for s_, k in expect[node].items() if k})), where)
                 return rec
             # subroutines
             app = active[node]
             sub = step[2]
+            sock = step[4] if len(step) > 4 else 0
             before = counts(runner, node)
             before_peer = counts(runner, peer)
-            inbox_before = inbox_entries(runner, node)
+            inbox_before = inbox_entries(runner, node, sock)
+            waiting_before = expect[node].get(sock, 0)
             used_before = set(runner.executor(node)._used_physical_qubit_addresses)
             um_before = list(runner.unit_module(node) or [])
             ql_before = sorted(runner.nq.facs[node].qubitList)
@@ -374,7 +441,7 @@ def run_case(case, gen_rng=None, res=None):
             if sub in ("create", "create-m", "recv") and not failed and not f13[node]:
                 # netqasm reserves a physical address per pair of a request (_get_unused_physical_qubit); when the request
                 # is done, the addresses it reserved are mapped by the unit module or free again
-                taken = inbox_before[:len(inbox_before) - len(inbox_entries(runner, node))] if sub == "recv" else []
+                taken = inbox_before[:len(inbox_before) - len(inbox_entries(runner, node, sock))] if sub == "recv" else []
                 used_now = set(runner.executor(node)._used_physical_qubit_addresses)
                 stray = (used_now - used_before) - set(p for p in um_now if p is not None)
                 if stray:
@@ -386,6 +453,26 @@ def run_case(case, gen_rng=None, res=None):
                             "; no qfree / StopApp can release them (Executor._used_physical_qubit_addresses only shrinks when a "
                             "mapped address is freed)" if md else ""), where)
                     used0[node] |= stray          # reported once; the local-subroutine clause above would repeat it
+            # ---- our own account of the receive queues, per socket: a half goes to the peer and the peer's socket that the
+            # creator's LAST OpenEPRSocket for the local socket named; a receive request takes from its own socket's queue
+            if sub == "create":
+                ent = table[node].get(sock)
+                sent = sum(1 for o in rec["ops"] if o[0] == "send" and o[2])
+                if ent is not None:
+                    expect[ent[0]][ent[1]] = expect[ent[0]].get(ent[1], 0) + sent
+                queues_as_expected(where, "after a create subroutine of %s for socket %d (%d halves sent)" % (node, sock, sent))
+            if sub == "recv":
+                got = inbox_before.count("K") - inbox_entries(runner, node, sock).count("K")
+                taken_k = ["K"] * got
+                expect[node][sock] = max(0, waiting_before - got)
+                queues_as_expected(where, "after a receive subroutine of %s on socket %d (%d halves taken)" % (node, sock, got))
+                if (failed and got == 0 and waiting_before > 0 and not epr_failed[node] and not inbox_before[:1] == ["M"]
+                        and any("TIMEOUT" in e for e in rec["errors"])):
+                    add(RECV_TIMEOUT_KEY, "%s: recv_epr on socket %d timed out without taking a half although %d half(es) "
+                        "were sent for that socket and not received yet (queues of %s: %s)"
+                        % (node, sock, waiting_before, node, k_queues(runner, node)), where)
+            if sub in ("create", "create-m", "recv") and failed:
+                epr_failed[node] = True
             if sub == "create-m" and not failed:
                 # a measure-directly pair is measured at once: when the request is done no qubit of it remains anywhere
                 now, now_peer = counts(runner, node), counts(runner, peer)
@@ -408,7 +495,10 @@ def run_case(case, gen_rng=None, res=None):
                 if now["virt"] != before["virt"] - 1 or um_now != want_um or ql_now != want_ql:
                     add("free-removes-one", "%s: qfree of address %d: held %d -> %d, unit module %s -> %s, qubitList "
                         "%s -> %s" % (node, v, before["virt"], now["virt"], um_before, um_now, ql_before, ql_now), where)
-            if sub == "use-half" and failed:
+            if sub == "recv":
+                got_half[node] = (not failed) and "K" in taken_k
+            if sub == "use-half" and failed and got_half[node]:
+                # (judged only when the node's last receive request was answered without error and took a half)
                 add("delivered-half-lost", "%s could not measure the half it received (%s)" % (node, [e[:80] for e in rec["errors"]][:1]), where)
             return rec
 
@@ -423,6 +513,9 @@ def run_case(case, gen_rng=None, res=None):
                 maxq = {n: rng.randrange(2, 5) for n in NAMES}
                 app_id = {n: rng.randrange(3) for n in NAMES}
                 pending = {n: 0 for n in NAMES}            # halves delivered to n and not yet received (this generation)
+                # EPR socket ids of this generation: Alice's local id sk[Alice] is paired with Bob's sk[Bob].  `socks`
+                # cases draw them afresh per generation, so a local id is re-opened towards another (or the same) remote id
+                sk = {n: (rng.randrange(3) if case.get("socks") else 0) for n in NAMES}
 
                 def step(*s):
                     s = list(s)
@@ -433,7 +526,10 @@ def run_case(case, gen_rng=None, res=None):
                     return rec
                 for n in plan_nodes:
                     step(n, "init", app_id[n], maxq[n])
-                    step(n, "open")
+                    if case.get("socks"):
+                        step(n, "open", sk[n], sk[other(n)])
+                    else:
+                        step(n, "open")
                 live = list(plan_nodes)
                 budget = rng.randrange(2, 9)
                 while live:
@@ -473,22 +569,22 @@ def run_case(case, gen_rng=None, res=None):
                         vs = rng.sample(free, npairs)
                         if rng.random() < 0.08:
                             vs[0] = maxq[n] + 1               # address outside the unit module: hand-over fails
-                        rec = step(n, "sub", "create", nqcase.epr_create_text(vs, node_id[peer]))
+                        rec = step(n, "sub", "create", nqcase.epr_create_text(vs, node_id[peer], sock=sk[n]), sk[n])
                         pending[peer] += sum(1 for o in rec["ops"] if o[0] == "send" and o[2])
                     elif c == "create-m":
                         npairs = 1 if rng.random() < 0.6 else 2
                         rbl, rbr = rng.randrange(3), rng.randrange(3)
                         pl = [rng.randrange(0, 129), rng.randrange(0, 129)]        # 1/256; p1 + p2 <= 256 for XYZ
                         pr = [rng.randrange(0, 129), rng.randrange(0, 129)]
-                        before_in = len(inbox_entries(runner, peer))
-                        step(n, "sub", "create-m", epr_create_md_text(npairs, node_id[peer], rbl, rbr, pl + pr))
-                        pending[peer] += len(inbox_entries(runner, peer)) - before_in
+                        before_in = len(inbox_entries(runner, peer, sk[peer]))
+                        step(n, "sub", "create-m", epr_create_md_text(npairs, node_id[peer], rbl, rbr, pl + pr, sock=sk[n]), sk[n])
+                        pending[peer] += len(inbox_entries(runner, peer, sk[peer])) - before_in
                     elif c == "recv":
                         free = g.free_addrs(n)
                         npairs = 1 if pending[n] < 2 or len(free) < 2 or rng.random() < 0.6 else 2
                         vs = rng.sample(free, npairs)
-                        taken = inbox_entries(runner, n)[:npairs]      # the i-th pair of the request gets the i-th entry
-                        rec = step(n, "sub", "recv", nqcase.epr_recv_text(vs, node_id[peer]))
+                        taken = inbox_entries(runner, n, sk[n])[:npairs]      # the i-th pair of the request gets the i-th entry
+                        rec = step(n, "sub", "recv", nqcase.epr_recv_text(vs, node_id[peer], sock=sk[n]), sk[n])
                         got = sum(1 for o in rec["ops"] if o[0] == "claim")
                         pending[n] -= got
                         ok = "ErrorMessage" not in [x[0] for x in rec["replies"]]
@@ -538,7 +634,7 @@ def shrink(case, key):
                 break
     # a node's whole application (init .. stop) of one generation
     for gi in range(len(best["gens"])):
-        for n in NAMES:
+        for n in (best.get("names") or NAMES):
             gens = [list(x) for x in best["gens"]]
             gens[gi] = [s for s in gens[gi] if s[0] != n]
             if gens[gi] and len(gens[gi]) < len(best["gens"][gi]):
@@ -561,6 +657,86 @@ def shrink(case, key):
             if changed:
                 break
     return best
+
+
+def socket_history(rng, three=False):
+    """A directed case (explicit steps, as in a replay): 2-4 application generations whose EPR sockets vary.  Each
+    generation opens 1-2 links (node a's local socket sa <-> node b's local socket sb, OpenEPRSocket on both sides);
+    a link mostly RE-USES a local socket id of an earlier generation towards another remote socket id (or, on three
+    nodes, another remote node), sometimes re-opens an earlier link unchanged (control) or is fresh.  Over every link
+    1-2 pairs are created and kept in one or both directions, received, measured and freed by the receiver; the
+    creator frees its halves or leaves them to StopApp; the applications stop in any order.  Nothing is left over by
+    a generation, so every clause of the oracle applies with an empty receive queue as the baseline."""
+    names = ["Alice", "Bob", "Charlie"] if three else list(NAMES)
+    nid = {n: i for i, n in enumerate(sorted(names))}
+    cap, maxq = 6, 4
+    last = {n: {} for n in names}          # node -> local socket -> (peer, peer's socket) as last opened
+    gens = []
+    for _gi in range(rng.randrange(2, 5)):
+        links, busy = [], set()
+        for _l in range(rng.choice([1, 1, 2])):
+            for _try in range(8):
+                mode = rng.choice(["reuse", "reuse", "reuse", "same", "fresh"])
+                known = [(a, sa) for a in names for sa in sorted(last[a])]
+                if mode != "fresh" and known:
+                    a, sa = rng.choice(known)
+                    b0, sb0 = last[a][sa]
+                    if mode == "same":
+                        b, sb = b0, sb0
+                    else:
+                        b = rng.choice([m for m in names if m != a])
+                        sb = rng.choice([x for x in range(3) if (b, x) != (b0, sb0)])
+                else:
+                    a, b = rng.sample(names, 2)
+                    sa, sb = rng.randrange(3), rng.randrange(3)
+                if (a, sa) in busy or (b, sb) in busy:
+                    continue
+                busy |= {(a, sa), (b, sb)}
+                links.append((a, sa, b, sb))
+                break
+        if not links:
+            continue
+        nodes = sorted(set(n for (a, _sa, b, _sb) in links for n in (a, b)))
+        rng.shuffle(nodes)
+        steps = [[n, "init", rng.randrange(3), maxq] for n in nodes]
+        opens = []
+        for (a, sa, b, sb) in links:
+            opens += [[a, "open", sa, sb, b], [b, "open", sb, sa, a]]
+            last[a][sa], last[b][sb] = (b, sb), (a, sa)
+        rng.shuffle(opens)
+        steps += opens
+        free = {n: list(range(maxq)) for n in nodes}
+        creates, recvs = [], []
+        for (a, sa, b, sb) in links:
+            dirs = rng.choice([[(a, sa, b, sb)], [(b, sb, a, sa)], [(a, sa, b, sb), (b, sb, a, sa)]])
+            for (c, sc, r, sr) in dirs:
+                k = 1 if rng.random() < 0.7 else 2
+                if len(free[c]) < k or len(free[r]) < k:
+                    continue
+                vc = [free[c].pop(rng.randrange(len(free[c]))) for _ in range(k)]
+                vr = [free[r].pop(rng.randrange(len(free[r]))) for _ in range(k)]
+                creates.append([[c, "sub", "create", nqcase.epr_create_text(vc, nid[r], sock=sc), sc, r]])
+                after = [[r, "sub", "recv", nqcase.epr_recv_text(vr, nid[c], sock=sr), sr, c]]
+                for v in vr:
+                    after.append([r, "sub", "use-half", "set Q0 %d\nmeas Q0 M0\nret_reg M0" % v])
+                    after.append([r, "sub", "free1", "set Q0 %d\nqfree Q0" % v])
+                for v in vc:
+                    if rng.random() < 0.6:
+                        after.append([c, "sub", "free1", "set Q0 %d\nqfree Q0" % v])
+                recvs.append(after)
+        if rng.random() < 0.5:                 # all requests first, then all receives; else link by link
+            blocks = creates + recvs
+        else:
+            blocks = [x for pair in zip(creates, recvs) for x in pair]
+        for blk in blocks:
+            steps += blk
+        stops = [[n, "stop"] for n in nodes]
+        rng.shuffle(stops)
+        gens.append(steps + stops)
+    case = {"seed": rng.randrange(1 << 30), "cap": cap, "gens": gens}
+    if three:
+        case["names"] = names
+    return case
 
 
 def f13_witness(cap=2):
@@ -617,6 +793,10 @@ def run(ctx):
                 "of 1-2 pairs incl. unmatched, receiver full, bad address, receive time-out), stops in any order; "
                 "30% of the cases with measure-directly requests (1-2 pairs, bases NONE/XZ/XYZ, records received or not; "
                 "oracle only: both nodes leave the tie at the first one); "
+                "40% of the cases with EPR socket ids (0-2 on either side) drawn afresh per generation; "
+                "socket histories (2 nodes, every 4th on 3 nodes): 2-4 generations of 1-2 links each that re-use a local "
+                "socket id towards another remote socket id / node (or the same: control), 1-2 kept pairs per link in one "
+                "or both directions, received, measured, freed, StopApp in any order; "
                 "40% of the cases on nodes with register limit 1-3 below the qubit capacity (qalloc / pair creation "
                 "refused by the register limit at any point, later re-allocation of the refused address, StopApp); "
                 "the Lean model's node has no register limit: a plain qalloc refused by it is shown to the driver as an "
@@ -630,8 +810,8 @@ def run(ctx):
     found = {}
 
     def handle(case, viol, runner):
-        made = getattr(runner, "created_any", False) or any("new:" in w for n in NAMES for (_l, w, _d) in runner.lines[n])
-        res.case({k: case[k] for k in ("cap", "regs", "md", "gens") if k in case}, nontrivial=made)
+        made = getattr(runner, "created_any", False) or any("new:" in w for n in runner.names for (_l, w, _d) in runner.lines[n])
+        res.case({k: case[k] for k in ("cap", "regs", "md", "names", "gens") if k in case}, nontrivial=made)
         res.count("cases")
         if case.get("regs") is not None:
             res.count("cases:register-limit")
@@ -644,7 +824,7 @@ def run(ctx):
         for key, what, _w in viol:
             if key not in found:
                 found[key] = (case, what)
-        for n in NAMES:
+        for n in runner.names:
             all_lines.extend(runner.lines[n])
 
     if ctx.replay:
@@ -668,8 +848,33 @@ def run(ctx):
                 case["regs"] = rng.randrange(1, min(3, case["cap"] - 1) + 1)
             if rng.random() < 0.3:
                 case["md"] = True          # measure-directly requests among the steps: oracle only from the first one on
+            if rng.random() < 0.4:
+                case["socks"] = True       # EPR socket ids drawn afresh (0-2 on either side) in every generation
             viol, runner = run_case(case, gen_rng=random.Random(rng.randrange(1 << 30)), res=res)
             case.pop("ngens", None)
+            case.pop("socks", None)
+            if any(s_[1] == "open" and len(s_) > 2 for g_ in case["gens"] for s_ in g_):
+                res.count("cases:socket-ids-vary")
+            handle(case, viol, runner)
+        # socket histories: generations that re-open a local EPR socket id towards another remote socket id / node
+        srng = random.Random(rng.randrange(1 << 30))
+        for i in range(ctx.scale(90, 1500)):
+            case = socket_history(srng, three=(i % 4 == 3))
+            if not case["gens"]:
+                continue
+            viol, runner = run_case(case, res=res)
+            res.count("cases:socket-history:%d-nodes" % len(runner.names))
+            reopened = set()
+            seen = {}
+            for g_ in case["gens"]:
+                for s_ in g_:
+                    if s_[1] == "open":
+                        k_ = (s_[0], s_[2])
+                        if k_ in seen:
+                            reopened.add("same" if seen[k_] == (s_[4], s_[3]) else "other-socket" if seen[k_][0] == s_[4] else "other-node")
+                        seen[k_] = (s_[4], s_[3])
+            for r_ in reopened:
+                res.count("socket-history:local-id-reopened:%s" % r_)
             handle(case, viol, runner)
 
     for key, (case, what) in sorted(found.items()):
